@@ -42,7 +42,7 @@ def check(ctx):
             name = spec.split(":")[1].split("[")[0]
             t = r["tunables"].get(name + "_duration")
             n += 1
-            good = t is not None and t.get("default") == f"$dur_{name}" and t.get("writeDefault") == "False" and t.get("subtable") == "'state'"
+            good = t is not None and t.get("default") in (f"$dur_{name}", "0") and t.get("writeDefault") == "False" and t.get("subtable") == "'state'"
             ctx.require(good, "C02.T4", f"{name}_duration = tunable($dur_{name}, writeDefault=False, subtable='state') in {r['universe']}",
                         f"duration tunable of timed state '{name}' is {t!r}; expected tunable(<decorator duration>, writeDefault=False, subtable='state') named '{name}_duration' [{r['universe']}]",
                         site=("magicbot/state_machine.py", 0, "_State.__set_name__"), key=f"C02.T4|{name}")
